@@ -23,7 +23,7 @@ func init() {
 			"production and only takes part in the race oracle), sequential reference results first (twice each; inputs whose references disagree are left out of the equality oracle), then k in {2, 8, 32, 64} goroutines " +
 			"x GOMAXPROCS in {1, 2, 4, 16, 64} each issuing 3-6 calls on the inputs, no monitor, no hook installed; before the concurrent phase a quarter of the batches each makes no call, a monitored call that returns, a monitored call on the empty graph (panics), a monitored call on a malformed edge (panics); oracles: (1) zero race detector reports (GORACE log of every worker, de-duplicated by the " +
 			"innermost autog frames), (2) every concurrent result equals its sequential reference byte for byte, (3) at the quiescent point the monitor globals are idle and the default options are unchanged (hook H4); " +
-			"every 12th batch runs two graphs with two layers of 68-74 nodes (matrices of thousands of cells in the ordering phase); in the thorough tier 4 batches starve 16 one-second calls on one processor (a result depending on elapsed time then differs from its reference); " +
+			"every 12th batch runs two graphs with two layers of 68-74 nodes (matrices of thousands of cells in the ordering phase); one batch in 240 (quick: 1, thorough: 4) starves 16 calls of about two seconds each on one processor (a result depending on elapsed time then differs from its reference); " +
 			"non-trivial = a batch in which calls on different algorithm cells actually overlapped in time (measured with an in-flight counter)",
 		MinNontrivial: counts(24, 240),
 		Required:      []string{"overlapping_calls", "concurrent_calls", "equality_checks", "preamble:2", "preamble:3"},
@@ -60,7 +60,7 @@ func init() {
 				c.Conc = conc
 				c.Family = "batch-wide-layers"
 				return c
-			case tier == "thorough" && idx%240 == 7:
+			case idx%240 == 7:
 				// CPU starvation: calls that take about two seconds alone under the race detector (network simplex positioner on a 110-130 node tree) are
 				// run 16 at a time on one processor, so each takes 16x longer on the wall clock; a result that depends on
 				// elapsed time (a time budget inside an algorithm) differs from its sequential reference
